@@ -293,8 +293,9 @@ Record crow : Type := mkCrow {
   cr_ifrac : Q;          (* Frac_Ideal before round(.,4) *)
   cr_util : Q }.         (* PT_Util before round(.,4) *)
 
-(* int(x): towards zero *)
-Definition Qtrunc (x : Q) : Z := if Qle_bool 0 x then Qfloor x else Qceiling x.
+(* int(round(x)): to the nearest integer, ties to even (was int(x), towards zero, until /repo fix "C11b": the
+   double quotient ideal/factor of a whole number of cycles can fall just below it) *)
+Definition Qtrunc (x : Q) : Z := round_half_even x.
 
 (* _compute_row_stats, unrounded *)
 Definition frac_or_0 (a b : Q) : Q := if near0 b then 0 else a / b.
